@@ -7,6 +7,7 @@ import tempfile
 
 import numpy as np
 
+from props import _fd_xproc
 from vlib import core
 from vlib.core import Outcome, line
 
@@ -162,7 +163,9 @@ class C08(core.Property):
           'generator, iter, filter, islice, filtered base.client_ids()); '
           'all four implementations (in-memory, SQLite, subset over in-memory, subset over SQLite) observed after '
           'every op, alone and with several live readers over the same view object (zipped listings, suspended '
-          'iterators and shuffled streams across full passes, parent and derived view read alternately); non-trivial = >= 2 clients, >= 2 ops and at least one slice or subset that removes a client; '
+          'iterators and shuffled streams across full passes, parent and derived view read alternately), plus one pair '
+          'of fresh interpreters with different PYTHONHASHSEED per run (iteration orders and shuffled passes of a '
+          'sliced bytes- and str-keyed dataset must not depend on the process); non-trivial = >= 2 clients, >= 2 ops and at least one slice or subset that removes a client; '
           'distinct by case digest')
   TRUSTED = ['SQLite BLOB comparison = Python bytes comparison = lexicographic order on List Nat (exercised by the '
              'id pool: trailing zero bytes, prefixes, empty id, 0xff)',
@@ -519,6 +522,9 @@ class C08(core.Property):
       yield from self.exhaustive()
     n = 560 if tier == 'quick' else 2400
     for i in range(n):
+      if i in ({40} if tier == 'quick' else {40, 1040, 2040}):
+        yield self.gen_xproc(rng)
+        continue
       if i % 9 == 8:
         yield {'kind': 'bshuffle', 'n': rng.choice([0, 1, 2, 3, 5, 8, 13, 30]), 'B': rng.choice([1, 2, 3, 4, 8, 40]),
                'seed': rng.randrange(0, 10**6)}
@@ -526,6 +532,67 @@ class C08(core.Property):
         yield self.intersect_case(rng)
       else:
         yield self.gen_case(rng)
+
+  def gen_xproc(self, rng):
+    """A sliced dataset observed in this process and in two fresh interpreters with different hash salts:
+    'iteration order is deterministic' must not depend on the interpreter process."""
+    k = rng.randrange(9, 14)
+    ids = [c for c in ID_POOL if c][:7]
+    j = 0
+    while len(ids) < k:
+      ids.append(b'%03d' % j + (b'\x00' if rng.random() < 0.3 else b''))
+      j += 1
+    rng.shuffle(ids)
+    srt = sorted(ids)
+    slices = [[hx(srt[1]), None if rng.random() < 0.5 else hx(srt[-1])]]
+    if rng.random() < 0.4:
+      slices.append([None, hx(srt[-2])])
+    x = rng.randrange(0, 1000)
+    return {'kind': 'xproc', 'hashseeds': [1 + 2 * x, 2 + 2 * x],
+            'spec': {'table': [[hx(c), [10 * t + 1 + r for r in range(t % 3 + 1)]] for t, c in enumerate(ids)],
+                     'slices': slices, 'buffer': rng.choice([2, 3, 100]), 'seed': rng.randrange(0, 1000),
+                     'samplers': False}}
+
+  def _eval_xproc(self, case, ctx):
+    spec, (h1, h2) = case['spec'], case['hashseeds']
+    tags = ('xproc', f'slices={len(spec["slices"])}')
+    try:
+      mine = _fd_xproc.run_spec(spec, tmpdir=tempfile.mkdtemp(prefix='xm_', dir=self.tmp))
+    except Exception as e:
+      return Outcome(oracle_fail=f'building / reading the sliced dataset raised {exc_name(e)}: {e}',
+                     key='C08/xproc/exception', tags=tags)
+    try:
+      kids = _fd_xproc.probe(spec, [h1, h2], os.path.join(core.VERIF, 'harness'), core.REPO, self.tmp)
+    except RuntimeError as e:
+      raise core.InfraError(str(e))
+    ctx.count('cross_process_probes')
+    problems, key = [], None
+    for a, b, who in ((kids[h1], kids[h2], f'PYTHONHASHSEED={h1} vs PYTHONHASHSEED={h2}'),
+                      (mine, kids[h1], f'this process vs a fresh interpreter (PYTHONHASHSEED={h1})')):
+      for impl in sorted(a):
+        if a[impl] != b.get(impl):
+          key = key or 'C08/order/process-dependent'
+          problems.append(f'{impl}: the same dataset ({len(spec["table"])} clients, slices {spec["slices"]}) iterates '
+                          f'differently in two interpreter processes ({who}), first at '
+                          f'{_fd_xproc.first_difference(a[impl], b.get(impl))}: iteration order is not a function of '
+                          f'the dataset (it depends on the per-process salt of hash())')
+          break
+      if problems:
+        break
+    want = sorted(c for c in (ub(h) for h, _ in spec['table'])
+                  if all((s is None or ub(s) <= c) and (e is None or c < ub(e)) for s, e in spec['slices']))
+    for impl, rec in sorted(mine.items()):
+      ids = sorted(('s:' + c.decode('latin-1')) if impl == 'memstr' else hx(c) for c in want)
+      if sorted(rec['client_ids']) != ids or sorted(c for c, _ in rec['clients']) != ids:
+        key = key or 'C08/ids'
+        problems.append(f'{impl}: sliced view lists {rec["client_ids"]}, expected {ids}')
+      n = len(ids)
+      if n and any(sorted(rec.get('shuffled', [])[t * n:(t + 1) * n]) != ids for t in range(3)):
+        key = key or 'C08/shuffled'
+        problems.append(f'{impl}: a pass of shuffled_clients is not every client once: {rec.get("shuffled")}')
+    return Outcome(oracle_fail='; '.join(problems[:3]) or None, key=key, nontrivial=True, tags=tags,
+                   detail={'this_process': {k: {f: v[f] for f in ('client_ids', 'shuffled') if f in v}
+                                            for k, v in mine.items()}})
 
   def intersect_case(self, rng):
     pool = [None] + [hx(b) for b in ID_POOL]
@@ -557,6 +624,16 @@ class C08(core.Property):
         if case[k] > lo:
           yield {**case, k: case[k] // 2 if case[k] // 2 >= lo else lo}
           yield {**case, k: case[k] - 1}
+      return
+    if case['kind'] == 'xproc':
+      sp = case['spec']
+      t = sp['table']
+      if len(sp['slices']) > 1:
+        yield {**case, 'spec': {**sp, 'slices': sp['slices'][:1]}}
+      if len(t) > 4:
+        yield {**case, 'spec': {**sp, 'table': t[:len(t) // 2 + 1]}}
+        yield {**case, 'spec': {**sp, 'table': t[len(t) // 2 - 1:]}}
+        yield {**case, 'spec': {**sp, 'table': t[:-1]}}
       return
     if case['kind'] == 'intersect':
       q = case['quads']
@@ -597,6 +674,8 @@ class C08(core.Property):
       return self._eval_bshuffle(case, ctx)
     if case['kind'] == 'intersect':
       return self._eval_intersect(case, ctx)
+    if case['kind'] == 'xproc':
+      return self._eval_xproc(case, ctx)
     big, ops, req, probes = case['big'], case['ops'], case['req'], case['probes']
     table = [(h, r) for h, r, s in big if s]
     problems, corr, corr_known, key = [], [], [], None
